@@ -67,6 +67,32 @@ def cat_ranges(cat):
     return _cat_cache[cat]
 
 
+IGNORE_MODE = [0]      # re.IGNORECASE (with the other flags in force) while a pattern is being translated
+_tab_cache = {}
+
+
+def tabulated(op, av):
+    """Code points a single LITERAL / NOT_LITERAL / IN item accepts under the flags in force, tabulated from the running
+    interpreter (CPython's case-insensitive matching has its own notion of equivalent characters, e.g. KELVIN SIGN ~ k)."""
+    import re._compiler as scmp
+    flags = IGNORE_MODE[0]
+    key = (op, repr(av), flags)
+    if key not in _tab_cache:
+        st = sp.State()
+        st.flags = flags
+        one = scmp.compile(sp.SubPattern(st, [(op, av)]), flags)
+        rs = _ranges(lambda ch: one.fullmatch(ch) is not None)
+        at_top = one.fullmatch(chr(MAXCP)) is not None
+        for cp in range(MAXCP + 1, PY_MAXCP + 1):
+            if (one.fullmatch(chr(cp)) is not None) != at_top:
+                tail_inexact.append(f"case-insensitive item {op} {av!r} (first difference at U+{cp:X})")
+                break
+        else:
+            tail_checked.append(f"case-insensitive item {op} {str(av)[:40]}")
+        _tab_cache[key] = rs
+    return _tab_cache[key]
+
+
 def rng(lo, hi):
     return z3.Range(chr(lo), chr(hi)) if lo != hi else z3.Re(chr(lo))
 
@@ -126,7 +152,9 @@ def set_ranges(items):
 def tr(seq):
     parts = []
     for op, av in seq:
-        if op == sc_.LITERAL:
+        if IGNORE_MODE[0] and op in (sc_.LITERAL, sc_.NOT_LITERAL, sc_.IN):
+            parts.append(union(rng(a, b) for a, b in tabulated(op, av)))
+        elif op == sc_.LITERAL:
             parts.append(z3.Re(chr(av)))
         elif op == sc_.NOT_LITERAL:
             parts.append(union(rng(a, b) for a, b in complement([(av, av)])))
@@ -163,16 +191,18 @@ def tr(seq):
 
 def compile_lang(pattern: str, mode="match", flags=0):
     """z3 regex R such that re.<mode>(pattern, s) is not None  <=>  s in R."""
-    if flags & ~(re.ASCII | re.UNICODE):
-        raise Unsupported("regex flags other than re.ASCII")
+    if flags & ~(re.ASCII | re.UNICODE | re.IGNORECASE):
+        raise Unsupported("regex flags other than re.ASCII / re.IGNORECASE")
     p = sp.parse(pattern, flags)
-    if p.state.flags & ~(re.UNICODE | re.ASCII):
+    if p.state.flags & ~(re.UNICODE | re.ASCII | re.IGNORECASE):
         raise Unsupported("regex flags in pattern")
     ASCII_MODE[0] = bool(p.state.flags & re.ASCII)
+    IGNORE_MODE[0] = int(p.state.flags) if p.state.flags & re.IGNORECASE else 0
     try:
         return _compile_seq(list(p), mode)
     finally:
         ASCII_MODE[0] = False
+        IGNORE_MODE[0] = 0
 
 
 def _compile_seq(seq, mode):
